@@ -560,19 +560,20 @@ def generate(src_root):
     L.append('')
     L.append('/-- started one frame up, end at the caller\'s depth on every path -/')
     L.append('def closers : List (String × Stmt) := [')
-    L.append(',\n'.join('  ("%s", %s)' % (b, b) for b in ['RequestContext_end', 'RequestContext_exit', 'Configurator_end', 'Configurator_exit', 'get_root_closer']))
+    L.append(',\n'.join('  ("%s", %s)' % (b, b) for b in ['RequestContext_end', 'RequestContext_exit', 'Configurator_end', 'Configurator_exit', 'get_root_closer', 'prepare_closer', 'AppEnvironment_exit']))
     L.append(']')
     L.append('')
-    L.append('/-- the scripting environment of `prepare`: its closer runs the finished callbacks before it pops, so these')
-    L.append('are balanced only for oracles that do not raise inside a finished callback (`finishedCallbackSites`) -/')
+    L.append('/-- the scripting environment of `prepare`: `with prepare() as env: …` and `prepare()` … `closer()`; its closer')
+    L.append('runs the finished callbacks (which may raise) and must still pop -/')
     L.append('def scriptingEnv : List (String × Stmt) := [')
     L.append(',\n'.join('  ("%s", %s)' % (b, b) for b in ['with_prepare', 'prepare_then_closer']))
     L.append(']')
     L.append('')
     def sid(nm):
         return tr.sites.index(nm) if nm in tr.sites else 0
-    L.append('/-- the sites of the schedule on which `prepare`\'s closer leaks: its `if request.finished_callbacks` branch, the')
-    L.append('`while callbacks` loop and the callback call of `_process_finished_callbacks` -/')
+    L.append('/-- the sites of the schedule on which `prepare`\'s closer leaked before fix 87e9fa7 (F-C13b): its')
+    L.append('`if request.finished_callbacks` branch, the `while callbacks` loop and the callback call of')
+    L.append('`_process_finished_callbacks` -/')
     L.append('def siteCloserIf : Nat := %d' % sid('prepare.closer|if|1'))
     L.append('def siteFinWhile : Nat := %d' % sid('CallbackMethodsMixin._process_finished_callbacks|while|1'))
     L.append('def siteFinCallback : Nat := %d' % sid('CallbackMethodsMixin._process_finished_callbacks|callback|1'))
